@@ -224,3 +224,26 @@ claim("C13", "other",
       "monomials and sibling equality with the partial g_aa / S_aa forms (R-ALG, R-SIB); call-site roles of remove_pbc (R-PBC); "
       "ordering rule on the returned pair (R-ORDER)",
       "DESIGN.md section 4, C13")
+
+claim("C19", "other",
+      "Writer/reader agreement is decided on line templates and token positions, for 2D and 3D: write_dump_header is flattened "
+      "into nine newline-terminated lines whose roles (line 2 timestep, line 4 count, line 5 orthogonal BOX BOUNDS, lines 6-8 "
+      "`lo hi` of axis 0..2 with a well-formed dummy z line in 2D, line 9 `ITEM: ATOMS id type x y [z] addson`) are matched "
+      "with what read_lammps, read_lammps_centertype and read_lammps_vector consume under abstract interpretation (nine header "
+      "readlines, timestep = int(line 2), atom loop = range(int(line 4)), boxbounds[r,c] = token c of line 6+r, boxlength = "
+      "hi-lo, hmatrix = diag, style from tokens[2:] of line 9); read_additions: count from line 4, frames = len/(N+9), atom "
+      "block = content[n(N+9)+9 : (n+1)(N+9)] as a polynomial identity, value stored at [frame, id-1] from the requested "
+      "column; write_data_header labels each bounds line with its own axis. Centre-type reader (6 configurations): rows by "
+      "id-1, type from token 2, coordinates tokens 3..ndim+2, one boolean mask = membership of the id-ordered type in the map's "
+      "keys applied to positions and types, relabel through the map, nparticle = selected count, xs x boxlength + lower corner, "
+      "x wrapped by +-L, xu verbatim. Vector reader: token index = column id - 1 in the requested order. HOOMD: typeid + 1, "
+      "box[:ndim], diag cell, position[:, :ndim], nsnapshots = len, dimension guard; DCD positions[i][:, :ndim] installed into "
+      "frame i by dataclasses.replace (no store to the frozen record). Log: sections start at `Step ` lines, rows = line of "
+      "`Loop time of ` - start - 1, every section read and returned in order. Not decided: pandas/gsd/mdtraj behaviour, number "
+      "formatting/parsing round trip of the floats (6 decimals), logs whose thermo lines contain the marker strings.",
+      "Trusted: str.split/int/float, pandas read_csv(skiprows, nrows) semantics, dataclasses.replace; ReaderRun line numbering "
+      "(every readline a distinct line) shared with C01.",
+      "line-template reconstruction of the writers + per-configuration abstract interpretation of the readers, compared token by "
+      "token (R-PROTO); index base/sort rules (R-IDX); mask/selection structure (R-SEL); exact algebra of block offsets and cell "
+      "entries (R-ALG); frozen-record store rule (R-FROZEN)",
+      "DESIGN.md section 4, C19")
